@@ -181,7 +181,8 @@ fn randoms_across_threads(ctx: &Ctx) {
 fn randoms(ctx: &Ctx, idx: u64) {
     let mut r = ctx.rng("c18r", idx);
     let n_draws = ctx.t(1500, 10000);
-    for &n in &[1u32, 2, 8, 64, 255, 256, 257, 1024, 1536] {
+    // sizes up to and beyond what the largest suite asks for (CL3072: ls + blinding = 4097 bits), and far beyond
+    for &n in &[1u32, 2, 8, 64, 255, 256, 257, 1024, 1536, 2049, 3073, 4095, 4096, 4097, 8192, 16385] {
         let case = format!("random_bits/{}", n);
         ctx.distinct(&case);
         let mut seen = std::collections::HashSet::new();
